@@ -645,8 +645,24 @@ def c20_post_run(vc, scr, spec, res, children):
         res.broken.append({"why": "required operation pairs overlapped fewer than 5 times: %s" % missing})
 
 
+def c20_overlay(vc, scr):
+    """Compile the *current* api.go with a yield point at the entry of the accessors that hand out the
+    node's state (the objects FSM.Restore swaps): consecutive accessor calls of one request are pulled apart."""
+    src = os.path.join(vc.REPO, "internal/api/api.go")
+    text = open(src).read()
+    needle = "\th.mu.Lock()\n\tdefer h.mu.Unlock()\n\treturn h."
+    if text.count(needle) != 3:
+        raise vc.Broken("api.go: expected three accessors of the form Lock/defer Unlock/return h.<field>, found %d" % text.count(needle))
+    text = text.replace(needle, "\tverifYield()\n" + needle)
+    out = scr.path("api_yield.go")
+    with open(out, "w") as f:
+        f.write(text)
+    return {src: out}
+
+
 register("C20", title="no data races", pkg=".", race=True,
-         parts=[{"test": "^TestVerifC20$", "race": True, "may_die": True, "children": {"quick": 6, "thorough": 48}, "cases": {"quick": 2, "thorough": 4}},
+         parts=[{"test": "^TestVerifC20$", "race": True, "may_die": True, "children": {"quick": 6, "thorough": 48}, "cases": {"quick": 2, "thorough": 4},
+                 "overlay_hook": c20_overlay, "name": "main_yield"},
                 {"pkg": "./internal/outputstream", "name": "outputstream_real", "test": "^TestVerifC08Real$", "race": True,
                  "children": {"quick": 2, "thorough": 8}, "cases": {"quick": 2, "thorough": 10}},
                 {"cluster": True, "tiers": ["thorough"], "children": {"quick": 0, "thorough": 4}, "cases": {"quick": 1, "thorough": 3},
